@@ -28,9 +28,34 @@ def stage_bodies(F):
             continue
         at = b.arg_types()
         if any(t.startswith('std::sync::mpsc::Receiver<adlt::dlt::DltMessage>') for t in at) and \
-                any(l['cm'] and l['t'].startswith('std::collections::BinaryHeap<') for l in b.locals):
+                any(l['cm'] and re.match(r'std::collections::(BinaryHeap|BTreeSet|BTreeMap|HashSet|HashMap|VecDeque)<|std::vec::Vec<', l['t']) and 'SortedDltMessage' in l['t'] for l in b.locals):
             out.append(b)
     return out
+
+
+SET_LIKE = re.compile(r'std::collections::(BTreeSet|HashSet|BTreeMap|HashMap)<')
+
+
+def check_buffer_is_multiset(stages, O4):
+    """the sorter must be able to hold several messages with an equal key (same calculated time and index): its buffer is
+    a heap / vector / deque.  A set or a map keyed by the comparator silently refuses (set) or replaces (map) a message
+    whose key equals one that is still buffered - the output is no longer a permutation of the input."""
+    n = 0
+    for b in stages:
+        O4.fn(b.path)
+        for i, l in enumerate(b.locals):
+            if not l['cm'] or 'DltMessage' not in l['t']:
+                continue
+            if re.match(r'std::collections::|std::vec::Vec<', l['t']) is None:
+                continue
+            n += 1
+            O4.sites += 1
+            if SET_LIKE.match(l['t']):
+                O4.violation(('sort-buffer-collapses-equal-keys', b.path, l['t'].split('<')[0].split('::')[-1]), 'the sorter buffers messages in `%s: %s`: a set/map keeps one element per key, a message whose key (calculated time, index) '
+                             'equals a buffered one is dropped or replaces it' % (b.name_of(i) or '_%d' % i, l['t'][:80]), where=b.loc(None))
+            else:
+                O4.ok(sample={'buffer': b.name_of(i) or '_%d' % i, 'type': l['t'][:70], 'multiset': True})
+    O4.floor('message containers in the sorter', n, 1)
 
 
 def run(F, chk):
@@ -71,6 +96,8 @@ def run(F, chk):
     for b in stages:
         check_key_cap(b, O2)
     O2.floor('sort stage functions', len(stages), 1)
+    O4 = chk.rule('O4', 'the sorter buffers messages in a multiset container (heap/vector/deque), never in a set or map keyed by the comparator')
+    check_buffer_is_multiset(stages, O4)
     O3 = chk.rule('O3', 'the release threshold of the sorter is, on every path, the configured minimum delay, its previous value, or minimum + x (never below the minimum)')
     check_threshold_floor(F, stages, O3)
 
